@@ -294,7 +294,8 @@ where
         let h = decoder.pull().map_err(Into::into)?;
         match h {
           Header::Break => break,
-          Header::Bytes(seg_len) => {
+          // RFC 8949 3.2.3: chunks must be definite-length strings
+          Header::Bytes(seg_len @ Some(_)) => {
             let seg = read_bytes(decoder, seg_len)?;
             result.extend_from_slice(&seg);
           }
@@ -329,7 +330,8 @@ where
         let h = decoder.pull().map_err(Into::into)?;
         match h {
           Header::Break => break,
-          Header::Text(seg_len) => {
+          // RFC 8949 3.2.3: chunks must be definite-length strings
+          Header::Text(seg_len @ Some(_)) => {
             let seg = read_text(decoder, seg_len)?;
             result.push_str(&seg);
           }
